@@ -10,8 +10,18 @@ import sys
 from concurrent.futures import ThreadPoolExecutor
 
 VERIF = os.path.dirname(os.path.dirname(os.path.abspath(__file__)))
-BASE = '/tmp/sb'
-props = sys.argv[1:] or sorted(d for d in os.listdir(BASE) if os.path.isdir(f'{BASE}/{d}'))
+def _opt(name, default):
+    return sys.argv[sys.argv.index(name) + 1] if name in sys.argv else default
+
+
+BASE = _opt('--base', '/tmp/sb')
+TAG = _opt('--tag', 'r2')
+RES = _opt('--res', '/tmp/seedres2')
+_skip = set()
+for _o in ('--base', '--tag', '--res'):
+    if _o in sys.argv:
+        _skip.update({sys.argv.index(_o), sys.argv.index(_o) + 1})
+props = [a for i, a in enumerate(sys.argv) if i > 0 and i not in _skip] or sorted(d for d in os.listdir(BASE) if os.path.isdir(f'{BASE}/{d}'))
 head = subprocess.run('git -C /repo rev-parse --short HEAD', shell=True, capture_output=True, text=True).stdout.strip()
 jobs = []
 for p in props:
@@ -24,7 +34,7 @@ for p in props:
 def one(job):
     p, k, d = job
     full = {}
-    fr = f'/tmp/seedres2/{p}-{k}.json'
+    fr = f'{RES}/{p}-{k}.json'
     if os.path.isfile(fr):
         try:
             full = json.loads(open(fr).read().strip().splitlines()[-1])
@@ -40,15 +50,15 @@ def one(job):
             f"own {res.get('caught_by_own')} { {q: v['exit'] for q, v in res.get('caught_by', {}).items()} }")
     if not ok:
         return line + '  NOT STORED'
-    out = f'{VERIF}/seeded/{p}-r2-{k}'
+    out = f'{VERIF}/seeded/{p}-{TAG}-{k}'
     os.makedirs(out, exist_ok=True)
     for f in ('patch.diff', 'demo.py', 'notes.md'):
         if os.path.isfile(f'{d}/{f}'):
             shutil.copy(f'{d}/{f}', f'{out}/{f}')
     notes = open(f'{d}/notes.md').read() if os.path.isfile(f'{d}/notes.md') else ''
     meta = {
-        'id': f'{p}-r2-{k}', 'breaks_property': p,
-        'origin': 'independent sub-agent (second round: asked for changes of a different character than one-token slips), given only the property text and a scratch worktree',
+        'id': f'{p}-{TAG}-{k}', 'breaks_property': p,
+        'origin': f'independent sub-agent (round {TAG}: asked for changes of a different character than in the earlier rounds), given only the property text and a scratch worktree',
         'repo_head_when_confirmed': head,
         'needs_to_manifest': next((l.strip() for l in notes.splitlines() if 'need' in l.lower() and len(l) > 30), '')[:400],
         'confirmed_by_me': {
